@@ -27,6 +27,10 @@ func FToBaseStr(num float64, radix int) string {
 			ldfloor = -ldfloor
 		}
 		intDigits = strconv.FormatInt(ldfloor, radix)
+		if negative && ldfloor == 0 {
+			// -1 < num < 0: the integer part is zero, the sign still has to be printed
+			intDigits = "-0"
+		}
 	} else {
 		floorBits := math.Float64bits(num)
 		exp := int(floorBits>>exp_shiftL) & exp_mask_shifted
